@@ -182,7 +182,7 @@ PROPERTIES = {
                            "leaf ids under only_leafs. bounded stand-in: recording and exact solvers on random models/configurators, "
                            "batched vs single requests. ADDED: ge_polyhedron_config._vectors_from_prios under contract (user row = weight at the named column, 0 elsewhere, symbolic column bounds)."},
     "C16": {"harness_modules": ["contracts.c16", "contracts.shapes"],
-            "harness_filter": lambda h: h.name.startswith("json:") or h.name == "shape.json",
+            "harness_filter": lambda h: h.name.startswith("json:") or h.name in ("shape.json", "shape.json.imply"),
             "rt": ["rt.logic:c16_json_roundtrip", "rt.config:c16_configurator_json"], "level": "other",
             "assumptions": S_ALL + ["json.dumps/json.loads is the identity on the emitted records (checked by the stand-in only)"],
             "explanation": "deductive: for variable/AtLeast(explicit signs)/AtMost/All/Any/Xor/XNor/Imply the real to_json followed by the "
